@@ -1011,9 +1011,23 @@ func cmdZremrangebyscore(s *Server, ss *Session, a [][]byte) resp.Value {
 
 func cmdScript(s *Server, ss *Session, a [][]byte) resp.Value {
 	if len(a) >= 2 && strings.EqualFold(string(a[0]), "load") {
-		sha := fmt.Sprintf("%040x", fnv64(a[1]))
+		sha := ScriptSHA(a[1]) // SHA1 of the source, as Redis (clients compute it themselves for EVALSHA)
 		s.Scripts[sha] = string(a[1])
 		return resp.BulkS(sha)
+	}
+	if len(a) >= 1 && strings.EqualFold(string(a[0]), "exists") {
+		out := make([]resp.Value, 0, len(a)-1)
+		for _, h := range a[1:] {
+			if _, ok := s.Scripts[strings.ToLower(string(h))]; ok {
+				out = append(out, resp.Int(1))
+			} else {
+				out = append(out, resp.Int(0))
+			}
+		}
+		return resp.Array(out...)
+	}
+	if len(a) >= 1 && strings.EqualFold(string(a[0]), "flush") {
+		s.Scripts = map[string]string{}
 	}
 	return resp.OK()
 }
